@@ -220,8 +220,17 @@ package core
 
 // insert makes a block the head: the number index maps its height to its hash and the head
 // pointer designates it; it may only run after the block batch reached the database.
+// Ghost headwr_canon: the number index as it stood when the head-block pointer was last written
+// (ghost instrumentation). insert publishes the number-index entry of the new head BEFORE the
+// head pointer, so no crash point leaves a head pointer whose height is not indexed (C04).
+//@ ghost headwr_canon (Array (_ BitVec 64) (Array (_ BitVec 64) (_ BitVec 8)))
+//@ func WriteHeadBlockHash
+//@   axiom headwr_canon == old(canon)
+//@   assigns headwr_canon, inferred
+//@   keeps big
 //@ func BlockChain.insert
 //@   requires bc != nil && flushed
+//@   ensures[C03,C04] @indexfirst headwr_canon[blocknum(block)] == blockhash(block)
 //@   ensures[C03] @head curhead(bc) == block
 //@   ensures[C03] @canon canon[blocknum(block)] == blockhash(block)
 //@   ensures[C03] @others forall n uint64 :: n != blocknum(block) ==> canon[n] == old(canon[n])
